@@ -132,8 +132,13 @@ def build_driver(chk):
     return binp if okb else None
 
 
+class ViaForeign(list):
+    """a program whose `batch` and `untrack` statements the driver enters from inside a second, unrelated root (`@F` scenario): the
+    body returns to where it was through a handle of the current scope. For the model -- and for the property -- nothing changes"""
+
+
 def run_impl(binp, scenarios):
-    text = "\n".join(sx_stmts(s) for s in scenarios) + "\n"
+    text = "\n".join(("@F " if isinstance(s, ViaForeign) else "") + sx_stmts(s) for s in scenarios) + "\n"
     rc, so, se = vlib.run_driver(binp, text, timeout=3000)
     if rc != 0:
         raise RuntimeError("reactive-driver failed rc=%d: %s" % (rc, se[-2000:]))
